@@ -89,7 +89,7 @@ def fault_cases(ck, count):
 
 
 def run(ck):
-    ck.prove(["Properties_C04", "SrcRun4", "RefineConcSimEx", "Properties_SrcConc"], THEOREMS + ["SRC_protocol_follows_PipeConc"])
+    ck.prove(["Properties_C04", "SrcRun4", "RefineConcSimEx", "Properties_SrcConc", "Properties_SrcConc2"], THEOREMS + ["SRC_protocol_follows_PipeConc", "SRC_protocol_never_stuck", "SRC_protocol_machine_is_followed_by_PipeConc"])
     exe = shim_driver(ck)
     big = ck.tier == "thorough"
     r = ck.rng
